@@ -128,6 +128,10 @@ type UP4 struct {
 
 	p4RtTranslator *P4rtTranslator
 
+	// mu serialises the requests of all associations: every association's goroutine calls
+	// SendMsgToUPF, and the bookkeeping below (counters, meters, UE address maps) is shared.
+	mu sync.Mutex
+
 	// TODO: create UP4Store object and move these fields there
 	counters []counter
 	// tunnelPeerMu guards concurrent R/W access to tunnel peers,
@@ -540,11 +544,21 @@ func (up4 *UP4) listenToDDNs() {
 			digestData := up4.p4client.GetNextDigestData()
 
 			ueAddr := binary.BigEndian.Uint32(digestData)
-			if fseid, exists := up4.ueAddrToFSEID[ueAddr]; exists {
+			if fseid, exists := up4.fseidOfUE(ueAddr); exists {
 				notifier.Notify(fseid)
 			}
 		}
 	}
+}
+
+// fseidOfUE looks the session of a UE address up while no request is changing the mapping.
+func (up4 *UP4) fseidOfUE(ueAddr uint32) (uint64, bool) {
+	up4.mu.Lock()
+	defer up4.mu.Unlock()
+
+	fseid, exists := up4.ueAddrToFSEID[ueAddr]
+
+	return fseid, exists
 }
 
 func (up4 *UP4) clearDatapathState() error {
@@ -1488,6 +1502,9 @@ func (up4 *UP4) SendMsgToUPF(method upfMsgType, all PacketForwardingRules, updat
 		logger.PfcpLog.Errorln("UP4 server not connected")
 		return ie.CauseRequestRejected
 	}
+
+	up4.mu.Lock()
+	defer up4.mu.Unlock()
 
 	up4Log := logger.PfcpLog.With("method-type", method, "all", all, "updated-rules", updated)
 	up4Log.Debugln("sending PFCP message to UP4..")
